@@ -29,6 +29,14 @@ fn eval(expr: &str) -> String {
   }
 }
 
+/// eval under a watchdog: TIMEOUT when no answer within `secs` seconds (the evaluating thread is abandoned)
+fn eval_within(expr: &str, secs: u64) -> String {
+  let (tx, rx) = std::sync::mpsc::channel();
+  let e = expr.to_string();
+  std::thread::Builder::new().stack_size(64 * 1024 * 1024).spawn(move || { let _ = tx.send(eval(&e)); }).expect("spawn");
+  match rx.recv_timeout(std::time::Duration::from_secs(secs)) { Ok(s) => s, Err(_) => "TIMEOUT".to_string() }
+}
+
 /// null messages are not part of a value: Null(_) -> Null(None), recursively
 fn norm(v: &Value) -> Value {
   match v {
@@ -214,7 +222,7 @@ fn main() {
       let text = std::fs::read_to_string(&args[2]).unwrap_or_default();
       let mut out = String::new();
       for line in text.lines() {
-        let e = line.to_string();
+        let e = line.replace('\u{241E}', "\n");   // U+241E stands for a line feed inside an expression
         let r = std::panic::catch_unwind(move || {
           let scope = Scope::default();
           for n in ["a", "b", "c", "d", "x", "y"] { scope.set_entry(&n.into(), Value::Number(FeelNumber::from_i128(1))); }
@@ -273,7 +281,7 @@ fn main() {
       for f in failures { println!("FAIL {}", f); }
     }
     Some("feelcases") => {
-      // feelcases <file>: lines `expression ==> expected output`; evaluates each expression (empty scope) and compares the
+      // feelcases <file> [all]: (all: every failure is listed, not the first five) lines `expression ==> expected output`; evaluates each expression (empty scope) and compares the
       // rendered value with the expectation (`null` matches any null). Prints cases / failures in the bounded stand-in format.
       let text = std::fs::read_to_string(&args[2]).unwrap_or_default();
       let mut cases = 0usize;
@@ -285,11 +293,32 @@ fn main() {
           let got = eval(e.trim());
           let exp = expected.trim();
           let ok = if exp == "null" { got.starts_with("VALUE null") } else { got == format!("VALUE {}", exp) };
-          if !ok { nfail += 1; if failures.len() < 5 { failures.push(format!("{} => {} (expected {})", e.trim(), got.chars().take(160).collect::<String>(), exp)); } }
+          if !ok { nfail += 1; if failures.len() < 5 || args.get(3).map(|a| a == "all").unwrap_or(false) { failures.push(format!("{} => {} (expected {})", e.trim(), got.chars().take(160).collect::<String>(), exp)); } }
         }
       }
       println!("feelcases cases={} failures={}", cases, nfail);
       for f in failures { println!("FAIL {}", f); }
+    }
+    Some("feeltotal") => {
+      // feeltotal <file> [secs]: BOUNDED stand-in (not a proof) for C05: every line is an expression; parsing + evaluating it must
+      // answer (a value or an error) within <secs> seconds (default 10): no panic, no hang. Stops at the first hang.
+      let text = std::fs::read_to_string(&args[2]).unwrap_or_default();
+      let secs: u64 = args.get(3).and_then(|s| s.parse().ok()).unwrap_or(10);
+      let mut cases = 0usize;
+      let mut failures: Vec<String> = vec![];
+      let mut nfail = 0usize;
+      for line in text.lines().map(|l| l.trim()).filter(|l| !l.is_empty()) {
+        cases += 1;
+        let got = eval_within(line, secs);
+        if got == "PANIC" || got == "TIMEOUT" {
+          nfail += 1;
+          failures.push(format!("{} => {}", line, if got == "PANIC" { "PANIC".to_string() } else { format!("no answer within {} s", secs) }));
+          if got == "TIMEOUT" { break; }
+        }
+      }
+      println!("feeltotal cases={} failures={}", cases, nfail);
+      for f in failures { println!("FAIL {}", f); }
+      std::process::exit(0);
     }
     Some("biftotal") => {
       // BOUNDED stand-in (not a proof) for C05 on the built-in functions: every built-in name (file, one per line) applied to every
@@ -534,6 +563,68 @@ fn main() {
             }
           }
         }
+      }
+      // entry names of contexts INSIDE bound values (a nested context, the items of a bound list at every position, also after a
+      // null / a number / a context without that entry) are bound names too: `N - 1` is a subtraction from the entry named N
+      for nm in [vec!["interest", "rate"], vec!["x", "y", "z"], vec!["p"]] {
+        let name = dmntk_feel::Name::new(&nm);
+        let mut with = dmntk_feel::context::FeelContext::default();
+        with.set_entry(&name, Value::Number(FeelNumber::from_i128(5)));
+        let mut other = dmntk_feel::context::FeelContext::default();
+        other.set_entry(&"id".into(), Value::Number(FeelNumber::from_i128(1)));
+        let fillers: Vec<(&str, Value)> = vec![("null", Value::Null(None)), ("a number", Value::Number(FeelNumber::from_i128(7))), ("a context without it", Value::Context(other.clone()))];
+        for pos in 0..3usize {
+          for (fname, filler) in &fillers {
+            let mut items = vec![filler.clone(); 3];
+            items[pos] = Value::Context(with.clone());
+            let input = format!("loans[{} - 1 > 2]", name);
+            let (n2, i2, it2) = (name.clone(), input.clone(), items.clone());
+            let r = std::panic::catch_unwind(std::panic::AssertUnwindSafe(move || {
+              let scope = Scope::default();
+              let _ = n2;
+              scope.set_entry(&"loans".into(), Value::List(dmntk_feel::values::Values::new(it2)));
+              match dmntk_feel_parser::parse_expression(&scope, &i2, false) {
+                Ok(node) => match dmntk_feel_evaluator::prepare(&node) { Ok(ev) => format!("{}", ev(&scope)), Err(e) => format!("BUILD-ERROR {}", e) },
+                Err(e) => format!("PARSE-ERROR {}", e),
+              }
+            })).unwrap_or("PANIC".to_string());
+            cases += 1;
+            let expected = format!("[{}]", Value::Context(with.clone()));
+            // (a one-item filter result may be rendered as the item itself: singleton lists and their item are interchangeable in FEEL)
+            if r != expected && r != format!("{}", Value::Context(with.clone())) { nfail += 1; if failures.len() < 5 { failures.push(format!("loans = a list whose item #{} is {{{}: 5}} and whose other items are {}; input `{}` => {} (expected {})", pos + 1, name, fname, input, r, expected)); } }
+          }
+        }
+        let input = format!("c.{} - 1", name);
+        let (i2, w2) = (input.clone(), with.clone());
+        let r = std::panic::catch_unwind(std::panic::AssertUnwindSafe(move || {
+          let scope = Scope::default();
+          scope.set_entry(&"c".into(), Value::Context(w2));
+          match dmntk_feel_parser::parse_expression(&scope, &i2, false) {
+            Ok(node) => match dmntk_feel_evaluator::prepare(&node) { Ok(ev) => format!("{}", ev(&scope)), Err(e) => format!("BUILD-ERROR {}", e) },
+            Err(e) => format!("PARSE-ERROR {}", e),
+          }
+        })).unwrap_or("PANIC".to_string());
+        cases += 1;
+        if r != "4" { nfail += 1; if failures.len() < 5 { failures.push(format!("c = {{{}: 5}}; input `{}` => {} (expected 4)", name, input, r)); } }
+      }
+      // names introduced by context entries: the key of an entry is bound for the LATER entries, not while its own value is read
+      // (there the characters still denote the operator over the outer names); a = 9, b = 2 bound outside
+      for (input, expected) in [("{\"a-b\": a - b}", "{a-b: 7}"), ("{\"a-b\": a-b}", "{a-b: 7}"), ("{\"a/b\": a / b}", "{a/b: 4.5}"), ("{\"a*b\": a * b}", "{a*b: 18}"),
+                                ("{\"a+b\": a + b}", "{a+b: 11}"), ("{\"a-b\": 1, c: a-b}", "{a-b: 1, c: 1}"), ("{\"a-b\": 1, c: a - b}", "{a-b: 1, c: 1}"), ("{a: a + 1}", "{a: 10}"), ("{k: 1, r: k + 1}", "{k: 1, r: 2}"),
+                                ("{\"k w\": 1, r: k w + 1}", "{k w: 1, r: 2}"), ("{k w: 1, r: k w + 1}", "{k w: 1, r: 2}"), ("{c: {\"a-b\": a - b}, d: a - b}", "{c: {a-b: 7}, d: 7}"),
+                                ("[{\"a-b\": 1}, a - b]", "[{a-b: 1}, 7]")] {
+        let i2 = input.to_string();
+        let r = std::panic::catch_unwind(std::panic::AssertUnwindSafe(move || {
+          let scope = Scope::default();
+          scope.set_entry(&"a".into(), Value::Number(FeelNumber::from_i128(9)));
+          scope.set_entry(&"b".into(), Value::Number(FeelNumber::from_i128(2)));
+          match dmntk_feel_parser::parse_expression(&scope, &i2, false) {
+            Ok(node) => match dmntk_feel_evaluator::prepare(&node) { Ok(ev) => format!("{}", ev(&scope)), Err(e) => format!("BUILD-ERROR {}", e) },
+            Err(e) => format!("PARSE-ERROR {}", e),
+          }
+        })).unwrap_or("PANIC".to_string());
+        cases += 1;
+        if r != expected { nfail += 1; if failures.len() < 5 { failures.push(format!("a = 9, b = 2; input `{}` => {} (expected {})", input, r, expected)); } }
       }
       println!("names cases={} failures={}", cases, nfail);
       for f in failures { println!("FAIL {}", f); }
